@@ -343,6 +343,15 @@ def _eval_new_ctx(
         _logger.debug(
             f"_eval_new_ctx: assigning {(store_paths)} store path(s) to context"
         )
+        conflicting_paths = FunctionInteractionsUtils.conflicting_store_paths(inters)
+        if conflicting_paths:
+            # Only one signature is recorded for a path: the first call would be stored under the key of the last one.
+            raise DDSException(
+                f"The following paths are kept more than once in the same evaluation, by different functions or with "
+                f"different constant arguments: {', '.join(conflicting_paths)}. A path holds a single object: "
+                f"use different paths.",
+                DDSErrorCode.OVERLAPPING_PATH,
+            )
         faulty_non_terminal_leaves = FunctionInteractionsUtils.non_terminal_leaves(
             list(store_paths.keys()), None
         )
